@@ -35,7 +35,12 @@ namespace wapi
 {
 // ------------------------------------------------------------------------------------------------
 // memory files (fopencookie)
+extern "C" void wv_event(int kind, const void *obj, long a, long b);
 static void io_runaway(const char *which); // more stream callbacks than any terminating run can make
+static void io_outside(); // the I/O thread wrote outside the buffer it was filling: stop the run, ship the events
+static uint64_t g_arr_lo = 0, g_arr_hi = 0, g_fill_lo = 0, g_fill_hi = 0; // chunk-buffer array / data area of the buffer being filled (from the hook events)
+static std::vector<uint8_t> g_snap; // the array as it was when the fill began
+static bool g_snap_valid = false;
 struct MemFile
 {
   uint64_t calls = 0;
@@ -197,6 +202,31 @@ static std::mutex g_ev_m;
 extern "C" void wv_point(int kind, const void *obj)
 {
 #ifdef VS_SHIM
+  if (kind == WVP_IO_LOAD_READ && wapi::g_snap_valid)
+  {
+    // first yield point after the read of a fill: compare the buffer array with the copy taken at FILL_BEGIN
+    using namespace wapi;
+    g_snap_valid = false;
+    const uint8_t *now = (const uint8_t *)(uintptr_t)g_arr_lo;
+    size_t n = g_snap.size(), first = n, changed = 0;
+    for (size_t i = 0; i < n; i++)
+    {
+      uint64_t a = g_arr_lo + i;
+      if (a >= g_fill_lo && a < g_fill_hi)
+        continue;
+      if (now[i] != g_snap[i])
+      {
+        if (first == n)
+          first = i;
+        changed++;
+      }
+    }
+    if (changed)
+    {
+      wv_event(211, (const void *)(uintptr_t)(g_arr_lo + first), (long)changed, (long)(g_fill_lo - g_arr_lo));
+      io_outside();
+    }
+  }
   vsched::point(kind, obj);
 #else
   (void)kind;
@@ -209,6 +239,32 @@ extern "C" void wv_event(int kind, const void *obj, long a, long b)
   static int dbg = getenv("WV_DEBUG") ? 1 : 0;
   if (dbg)
     fprintf(stderr, "EV kind=%d obj=%p a=%ld b=%ld\n", kind, obj, a, b);
+  if (kind == WVE_GROUP_BUF) // base, count, stride
+  {
+    g_arr_lo = (uint64_t)(uintptr_t)obj;
+    g_arr_hi = g_arr_lo + (uint64_t)a * (uint64_t)b;
+  }
+  else if (kind == WVE_FILL_BEGIN) // the buffer the I/O thread is about to fill
+  {
+    g_fill_lo = (uint64_t)(uintptr_t)obj;
+    g_fill_hi = g_fill_lo + ((uint64_t)iobuffer::BUF_SZ << 4);
+#ifdef VS_SHIM
+    // Under the deterministic scheduler nothing else runs between this event and the first yield point inside
+    // load_buffer (right after the read): whatever changes in the buffer array in between was written by the I/O
+    // thread's read. Keep a copy of the array to compare with (wv_point below).
+    if (g_capture && g_arr_hi > g_arr_lo && g_arr_hi - g_arr_lo <= (1u << 20))
+    {
+      allocfault::Exempt af_;
+      g_snap.assign((const uint8_t *)(uintptr_t)g_arr_lo, (const uint8_t *)(uintptr_t)g_arr_hi);
+      g_snap_valid = true;
+    }
+#endif
+  }
+  else if (kind == WVE_FILL_END)
+  {
+    g_fill_lo = g_fill_hi = 0;
+    g_snap_valid = false;
+  }
   if (!g_capture)
     return;
   allocfault::Exempt af_;
@@ -433,9 +489,22 @@ static void io_runaway(const char *which)
   _exit(43);
 }
 
+static void io_outside()
+{
+#ifdef VS_SHIM
+  if (vsched::active())
+  {
+    vsched::current().blocked_desc = "stopped by the harness: while filling one chunk buffer the I/O thread changed memory of the buffer array outside that buffer's data area;";
+    fatal_handler("steplimit");
+  }
+#endif
+}
+
 template <class F>
 static void with_sched(const PipeCfg &pc, size_t nblocks, OpOut &out, F f)
 {
+  g_arr_lo = g_arr_hi = g_fill_lo = g_fill_hi = 0;
+  g_snap_valid = false;
   g_events.clear();
   g_capture = pc.want_events;
 #ifdef VS_SHIM
@@ -523,7 +592,7 @@ OpOut encrypt(const bytes &plain, const bytes &key, const bytes &seed, int cmode
   in.noseek = pc.in_noseek;
   out.wfail_at = pc.out_fail_at;
   out.logging = pc.want_log;
-  FILE *fi = pc.null_input ? NULL : mf_open(&in, "rb");
+  FILE *fi = pc.null_input ? NULL : mf_open(&in, "rb", pc.inbuf);
   FILE *fo = mf_open(&out, "wb+", pc.outbuf);
   bytes k = key;
   k.resize(16);
@@ -549,7 +618,7 @@ OpOut decrypt(const bytes &file, const bytes &key, const PipeCfg &pc)
   in.noseek = pc.in_noseek;
   out.wfail_at = pc.out_fail_at;
   out.logging = pc.want_log;
-  FILE *fi = pc.null_input ? NULL : mf_open(&in, "rb");
+  FILE *fi = pc.null_input ? NULL : mf_open(&in, "rb", pc.inbuf);
   FILE *fo = mf_open(&out, "wb+", pc.outbuf);
   bytes k = key;
   k.resize(16);
@@ -571,7 +640,7 @@ OpOut verify(const bytes &file, const bytes &key, const PipeCfg &pc, bool with_o
   in.fail_at = pc.in_fail_at;
   in.fail_once = pc.in_fail_once;
   in.noseek = pc.in_noseek;
-  FILE *fi = pc.null_input ? NULL : mf_open(&in, "rb");
+  FILE *fi = pc.null_input ? NULL : mf_open(&in, "rb", pc.inbuf);
   FILE *fo = with_out ? mf_open(&out, "wb+", pc.outbuf) : NULL;
   bytes k = key;
   k.resize(16);
@@ -626,8 +695,10 @@ RecOut run_recorder(const bytes &input, bool ispadding, const PipeCfg &pc)
   set_chunk(pc);
   MemFile in, out;
   in.d = input;
+  in.fail_at = pc.in_fail_at;
+  in.fail_once = pc.in_fail_once;
   out.logging = pc.want_log;
-  FILE *fi = mf_open(&in, "rb");
+  FILE *fi = mf_open(&in, "rb", pc.inbuf);
   FILE *fo = mf_open(&out, "wb+", pc.outbuf);
   g_calls.clear();
   u8_t iv[16] = {0};
